@@ -69,6 +69,20 @@ theorem moment_yields_one_iteration (gen : G → Input → Step G) (fuel : Nat) 
     · rw [Runner.handleYield_log]
       exact ⟨_, [], rfl, rfl⟩
 
+/-! Context variable in the flat-code instance (tie only; the examples pin the modelled behaviour): every
+    resumption runs in the coroutine's one context, so what the body wrote before a suspension on a PENDING
+    future or a moment it reads back afterwards, a `Token` taken before a suspension resets afterwards, and the
+    caller's value (77) is visible until the body overwrites it — for the decorated and the native driver. -/
+example : effects (Runner.exec Code.gen 9 [none]
+      (Code.load [.cread, .yld (.fut 0), .cset 80, .yld .moment, .cread] 77) [.set 0 (.result 10), .tick, .tick])
+    = [.k 77, .got (.n 10), .got .none, .k 80] := by decide
+example : effects (Native.exec Code.gen 9 [none]
+      (Code.load [.cread, .yld (.fut 0), .cset 80, .yld .moment, .cread] 77) [.tick, .set 0 (.result 10), .tick, .tick])
+    = [.k 77, .got (.n 10), .got .none, .k 80] := by decide
+example : effects (Runner.exec Code.gen 9 [none]
+      (Code.load [.tset 83, .cread, .yld (.fut 0), .treset, .treset] 77) [.set 0 (.result 10), .tick])
+    = [.k 83, .got (.n 10), .k 77, .k Code.noToken] := by decide
+
 /-- goal (tie only): for every generator, outcome assignment `oc` and schedule that settles futures according
     to `oc`, the decorated driver and the native driver have both fed the generator a prefix of the untimed
     meaning `canon`, and once finished they agree with it (hence with each other) in log and outcome -/
